@@ -25,6 +25,7 @@ type c10Op struct {
 	Name string `json:"name"`
 	To   string `json:"to,omitempty"`
 	Hash int    `json:"hash"`
+	N    int    `json:"n,omitempty"` // bulk: how many branches n0000.. are created
 }
 
 type c10Case struct {
@@ -82,6 +83,28 @@ func runC10(c *c10Case) error {
 			if !refused && err == nil {
 				delete(model, op.Name)
 			}
+		case "bulk":
+			// many branches at once: the list has no size at which it may stop being complete
+			for j := 0; j < op.N && err == nil; j++ {
+				name := fmt.Sprintf("n%04d", j)
+				if _, exists := model[name]; exists {
+					continue
+				}
+				err = guard("AddBranch", func() error { return refs.AddBranch(root, name, h) })
+				if err == nil {
+					model[name] = c10Hash(op.Hash)
+					if head == "" {
+						head = name
+					}
+				}
+			}
+			if err == nil {
+				// ... and the next process sees every one of them
+				err = guard("NewRefs", func() error { var e error; refs, e = store.NewRefs(root); return e })
+			}
+		case "reload":
+			// what the next process sees
+			err = guard("NewRefs", func() error { var e error; refs, e = store.NewRefs(root); return e })
 		case "update":
 			_, has := model[op.Name]
 			refused = !has
@@ -115,6 +138,17 @@ func runC10(c *c10Case) error {
 			}
 			if _, want := model[n]; got != want {
 				return fmt.Errorf("after op %d %+v IsBranchExist(%q)=%v, branches are %v", i, op, n, got, keys(model))
+			}
+		}
+		if op.Op == "reload" || op.Op == "bulk" {
+			for n := range model {
+				var got bool
+				if err := guard("IsBranchExist", func() error { got = refs.IsBranchExist(n); return nil }); err != nil {
+					return err
+				}
+				if !got {
+					return fmt.Errorf("after op %d %+v IsBranchExist(%q)=false although refs/heads holds it (%d branches)", i, op, n, len(model))
+				}
 			}
 		}
 		var names []string
@@ -166,10 +200,19 @@ func TestC10API(t *testing.T) {
 			default:
 				op.Op = "update"
 			}
+			if i > 0 && rapid.IntRange(0, 39).Draw(rt, "special") == 0 {
+				op.Op = "reload"
+				if !kinds["bulk"] && rapid.Bool().Draw(rt, "bulk") {
+					op.Op = "bulk"
+					op.N = []int{3, 255, 256, 257, 300, 513}[rapid.IntRange(0, 5).Draw(rt, "bulkN")]
+				}
+			}
 			kinds[op.Op] = true
 			c.Ops = append(c.Ops, op)
 		}
 		stats.Eval()
+		stats.LabelIf(kinds["bulk"], "api:hundreds of branches, then a fresh reader")
+		stats.LabelIf(kinds["reload"], "api:fresh reader in the middle of the history")
 		if err := runC10(c); err != nil {
 			findings.Save("C10", "api-c10", c, err)
 			rt.Fatalf("C10 violated: %v", err)
